@@ -176,6 +176,8 @@ def run(ctx):
     S_T, S_I = S.TEMPLATES, S.INLINE
     c12.scalar_primitives(ctx, "C11.R6", core)
     S.TEMPLATES, S.INLINE = S_T, S_I
+    ctx.rule("C11.R7", "prefix minus is the IEEE negation of the operand (never `0 - x`), not / ! negate the operand's boolean", floor=3)
+    unary_rule(ctx, "C11.R7", core)
     ctx.rule("C11.R4", "in the list-list copy the `len() != len()` test with error exit is the first thing that happens: no value is produced and no element is read before it", floor=1)
     blk = H.strip(C.arm_ll["body"])
     ok, why = False, "list-list arm is not a block"
@@ -216,3 +218,53 @@ def loop_ok(it, copy):
     if copy == "ll":
         return it == ("zip", "L", "R") or (it[0] == "struct" and it[1].endswith("ops::range::Range") and dict(it[2]).get("start") == ("lit", "0") and dict(it[2]).get("end") in (("call", "len", ("list", "L")), ("call", "len", ("list", "R"))))
     return it == ("list", "E") or (it[0] == "struct" and it[1].endswith("ops::range::Range") and dict(it[2]).get("start") == ("lit", "0") and dict(it[2]).get("end") == ("call", "len", ("list", "E")))
+
+
+def unary_rule(ctx, rid, core):
+    """prefix minus is the IEEE negation of the operand's number (so -0 keeps its sign, -x never goes through 0 - x), not / ! is the
+    negation of its boolean (shared with C16: a negative literal is Negate(Number))"""
+    EVAL_ = "blots_core::expressions::evaluate_ast"
+    hev = core.hir_fn(EVAL_)
+    mm = H.main_match(hev["body"], "ast::Expr")
+    arms = [a for a in (mm["arms"] if mm else []) if any(H.last(v) == "UnaryOp" for v in H.pat_variants(a["pat"]))]
+    if not arms:
+        ctx.inst(rid, "UnaryOp", None, "no UnaryOp arm found in evaluate_ast", None)
+        return
+    want = {"Negate": ("ctor", "Number", ("un", "Neg", ("try", ("call", "as_number", ("operand",))))),
+            "Not": ("ctor", "Bool", ("un", "Not", ("try", ("call", "as_bool", ("operand",))))),
+            "Invert": ("ctor", "Bool", ("un", "Not", ("try", ("call", "as_bool", ("operand",)))))}
+    seen = set()
+    for a in arms:
+        # operand = the evaluation of the `expr` field
+        binds = {}
+        for st in H.walk(a["pat"]):
+            if H.kind(st) == "Struct":
+                binds = {f["name"]: f["pat"] for f in st["fields"]}
+        opnames = set()
+        if "op" in binds:
+            opnames = {H.last(v) for v in H.pat_variants(binds["op"])}
+        env = S.Env()
+        blk = H.strip(a["body"])
+        # the let that evaluates the operand
+        for n in H.walk(a["body"]):
+            if H.kind(n) == "Let" and H.kind(n.get("pat")) == "Bind" and n.get("init") is not None and any(H.kind(x) == "Call" and x.get("def") == EVAL_ for x in H.walk(n["init"])):
+                env.roles[n["pat"]["name"]] = ("operand",)
+        inner = [m_ for m_ in H.walk(a["body"]) if H.kind(m_) == "Match" and m_["scrut"].get("ty", "").lstrip("&").endswith("ast::UnaryOp")]
+        if inner:
+            for aa in inner[0]["arms"]:
+                for v in [H.last(x) for x in H.pat_variants(aa["pat"])]:
+                    if v in want:
+                        seen.add(v)
+                        t = S.norm(aa["body"], env)
+                        ctx.inst(rid, "UnaryOp::%s" % v, S.verdict(t, want[v]), "computes %s; the statement gives %s" % (S.show(t)[:160], S.show(want[v])), H.loc(aa["body"]))
+        elif opnames & set(want):
+            # an arm dedicated to one operator (`UnaryOp { op: Negate, .. } => ..`)
+            t = S.norm(a["body"], env)
+            for v in sorted(opnames & set(want)):
+                seen.add(v)
+                vd = S.verdict(t, want[v])
+                if vd is None and S.contains_head(t, "fn") and any(x in S.show(t) for x in ("evaluate_binary_op_ast", "Subtract")):
+                    vd = False  # negation rewritten as a subtraction from zero: 0 - 0 is +0, -(0) is -0
+                ctx.inst(rid, "UnaryOp::%s" % v, vd, "computes %s; the statement gives %s" % (S.show(t)[:200], S.show(want[v])), H.loc(a["body"]))
+    for v in sorted(set(want) - seen):
+        ctx.inst(rid, "UnaryOp::%s" % v, None, "no arm for this operator was recognised", None)
